@@ -1,37 +1,32 @@
 package main
 
 import (
+	"bytes"
 	"fmt"
-	"os"
-	"path/filepath"
-	"strings"
 
-	v2 "github.com/hydraide/hydraide/app/core/hydra/swamp/chronicler/v2"
+	"github.com/hydraide/hydraide/app/core/compressor"
 )
 
 func main() {
-	dir, _ := os.MkdirTemp(os.Getenv("VERIF_WORK"), "p29")
-	defer os.RemoveAll(dir)
-	for _, n := range []int{100, 65535, 65536, 65600, 70000, 131072 + 5} {
-		name := "s/r/" + strings.Repeat("n", n-4)
-		p := filepath.Join(dir, fmt.Sprintf("f%d.hyd", n))
-		w, err := v2.NewFileWriterWithName(p, 4096, name)
-		if err != nil {
-			fmt.Println(n, "create err", err)
-			continue
+	for _, in := range [][]byte{{7, 9}, []byte("hello hydraide"), bytes.Repeat([]byte("abcdefgh"), 500)} {
+		c := compressor.New(compressor.LZ4)
+		comp, _ := c.Compress(in)
+		fmt.Printf("input %d bytes, compressed %d: % x\n", len(in), len(comp), comp[:min(len(comp), 32)])
+		for p := 0; p < len(comp); p++ {
+			for b := 0; b < 8; b++ {
+				d := append([]byte{}, comp...)
+				d[p] ^= 1 << b
+				out, err := c.Decompress(d)
+				if err == nil && !bytes.Equal(out, in) {
+					fmt.Printf("  flip byte %d bit %d -> %d bytes, prefix=%v % x\n", p, b, len(out), len(out) <= len(in) && bytes.Equal(out, in[:len(out)]), out[:min(len(out), 8)])
+				}
+			}
 		}
-		w.WriteEntry(v2.Entry{Operation: v2.OpInsert, Key: "k", Data: []byte("v")})
-		err = w.Close()
-		got, rerr := v2.ReadSwampName(p)
-		fr, e2 := v2.NewFileReader(p)
-		var lerr error
-		var idxn int
-		if e2 == nil {
-			idx, _, e3 := fr.LoadIndex()
-			lerr = e3
-			idxn = len(idx)
-			fr.Close()
+		for p := 0; p < len(comp); p++ {
+			out, err := c.Decompress(comp[:p])
+			if err == nil {
+				fmt.Printf("  truncate to %d -> %d bytes same=%v\n", p, len(out), bytes.Equal(out, in))
+			}
 		}
-		fmt.Println(n, "close", err, "readname len", len(got), got == name, rerr, "open", e2, "load", lerr, idxn)
 	}
 }
